@@ -799,7 +799,11 @@ func (s *Entry) Println(args ...any) {
 		s.log1(AlwaysLevel, "")
 		return
 	}
-	s.log1(AlwaysLevel, args[0].(string), args[1:]...)
+	msg, ok := args[0].(string)
+	if !ok {
+		msg = fmt.Sprint(args[0]) // Println(42): don't panic on a non-string first argument
+	}
+	s.log1(AlwaysLevel, msg, args[1:]...)
 } // Println implements Logger.
 
 //
